@@ -14,7 +14,7 @@ out = {}
 def one(p):
     return p, seedtest.run(p, props)
 total = 0
-with ThreadPoolExecutor(max_workers=6) as ex:
+with ThreadPoolExecutor(max_workers=int(os.environ.get("SWEEP_JOBS", "6"))) as ex:
     for p, res in ex.map(one, patches):
         name = os.path.basename(os.path.dirname(p))
         if res is None:
